@@ -288,9 +288,14 @@ def run(ctx, load):
         o['rule'] = 'C19.element-stamped'
     ctx.floors.pop(('C05.fresh-slot', ctx.config), None)
     ctx.floor('C19.element-stamped', 5)
+    from .rules_c06 import check_finalise_unregisters
+    check_finalise_unregisters(P, ctx, 'C19.released-once')
     n1 = check_heap_only(P, ctx, 'src/String.c', 'val', 'C19.guards', 'String')
     n2 = check_heap_only(P, ctx, 'src/Tuple.c', 'items', 'C19.guards', 'Tuple')
-    ctx.floor('C19.guards', 24)
+    from .rules_c16 import check_refusal_covers_mutation
+    check_refusal_covers_mutation(P, ctx, 'src/String.c', 'val', 'C19.guards', 'String')
+    check_refusal_covers_mutation(P, ctx, 'src/Tuple.c', 'items', 'C19.guards', 'Tuple')
+    ctx.floor('C19.guards', 38)
     sub = type('X', (), {})()
     # dealloc refusal of static/stack/data objects (same obligations as C12.dispatcher-checks, re-evaluated here)
     before = len(ctx.obs)
